@@ -1,9 +1,6 @@
 package value
 
 import (
-	"fmt"
-	"strings"
-
 	zerr "github.com/DemoHn/Zn/pkg/error"
 	r "github.com/DemoHn/Zn/pkg/runtime"
 )
@@ -49,12 +46,7 @@ func NewEmptyHashMap() *HashMap {
 }
 
 func (hm *HashMap) String() string {
-	var strItem = []string{}
-	for _, v := range hm.keyOrder {
-		strItem = append(strItem, fmt.Sprintf("%s=%s", v, hm.value[v].String()))
-	}
-
-	return fmt.Sprintf("[%s]", strings.Join(strItem, "，"))
+	return stringifyCollection(hm)
 }
 
 // GetKeyOrder -
